@@ -18,7 +18,7 @@ func init() {
 				"C10.lookup (PeerSetCache.Get returns the entry with the greatest round <= r; rounds kept sorted), C10.member (_witness true only for creators in the round's set; _stronglySee counts members of the given set only), " +
 				"C10.hash (Frame.Peers and BlockBody.PeersHash derive from the set of round-received; PeerSet.Hash folds the keys in slice order), C10.itx (internal transactions enter the pool only verified or self-signed), " +
 				"C10.latest (every store to core.validators takes the genesis set, the value just recorded with SetPeerSet, or a value derived from the whole peer-set history). NOT decided: equality of histories across nodes (follows from agreement)."},
-		Rules: []ruleFunc{c10writers, c10plus6, c10accepted, c10lookup, c10member, c10hash, c10itx, c10latest},
+		Rules: []ruleFunc{c10writers, c10plus6, c10accepted, c10lookup, c10member, c10hash, c10itx, c10latest, c10alias},
 	})
 }
 
@@ -559,4 +559,72 @@ func describeVal(v ssa.Value) string {
 		}
 	}
 	return v.String()
+}
+
+
+// C10.alias: a *Peer handed to a function that retains it (WithNewPeer appends
+// the pointer to the new set) must not point into a variable that is
+// overwritten on the next loop iteration (go.mod < 1.22: one range variable for
+// the whole loop).
+func c10alias(p *Prog, r *Report) {
+	const rule = "C10.alias"
+	r.Rule(rule, 2, "pointers retained by PeerSet.WithNewPeer / WithRemovedPeer / ParticipantEventsCache.AddPeer / NewPeerSet do not alias a loop variable that is overwritten by later iterations")
+	sinks := named(PEER+".PeerSet.WithNewPeer", PEER+".PeerSet.WithRemovedPeer", HG+".ParticipantEventsCache.AddPeer")
+	n := 0
+	for _, fn := range p.Mod {
+		loops := naturalLoops(fn)
+		if len(loops) == 0 {
+			continue
+		}
+		for _, c := range callsIn(fn, sinks) {
+			lp := innermostLoop(loops, c.Block())
+			if lp == nil {
+				continue
+			}
+			n++
+			a := argN(c, 0)
+			al := rootAlloc(a)
+			bad := false
+			if al != nil && !lp.body[al.Block()] {
+				// written inside the loop?
+				for _, st := range storedThrough(al) {
+					if lp.body[st.Block()] {
+						bad = true
+					}
+				}
+			}
+			r.Check(!bad, rule, fmt.Sprintf("%s:%s-arg-not-loop-variable", fn.Name(), calleeFunc(c.Common()).Name()), p.ipos(c), fnName(fn),
+				"the retained pointer refers to per-iteration memory",
+				"the *Peer retained by the new validator set points into a variable allocated outside the loop and overwritten by every iteration (shared range variable): later receipts of the same block rewrite the peer that was added")
+		}
+	}
+	if n == 0 {
+		r.Fail(rule, "retaining-calls-in-loops", "-", "", "no WithNewPeer/WithRemovedPeer call inside a loop found")
+	}
+}
+
+// rootAlloc follows FieldAddr / IndexAddr chains (and loads of pointer locals) to the Alloc a pointer points into.
+func rootAlloc(v ssa.Value) *ssa.Alloc {
+	seen := map[ssa.Value]bool{}
+	for v != nil && !seen[v] {
+		seen[v] = true
+		switch x := unwrap(v).(type) {
+		case *ssa.Alloc:
+			return x
+		case *ssa.FieldAddr:
+			v = x.X
+		case *ssa.IndexAddr:
+			v = x.X
+		case *ssa.Phi:
+			for _, e := range x.Edges {
+				if a := rootAlloc(e); a != nil {
+					return a
+				}
+			}
+			return nil
+		default:
+			return nil
+		}
+	}
+	return nil
 }
